@@ -267,16 +267,15 @@ class Ammo:
         v1 = PreferredUnits.velocity(other_velocity) >> Velocity.MPS
         t1 = PreferredUnits.temperature(other_temperature) >> Temperature.Celsius
 
-        v_delta = math.fabs(v0 - v1)
-        t_delta = math.fabs(t0 - t1)
-        v_lower = v1 if v1 < v0 else v0
+        v_delta = v1 - v0
+        t_delta = t1 - t0
 
         if v_delta == 0 or t_delta == 0:
             raise ValueError(
                 "Temperature modifier error, other velocity"
                 " and temperature can't be same as default"
             )
-        self.temp_modifier = v_delta / t_delta * (15 / v_lower)  # * 100
+        self.temp_modifier = v_delta / t_delta * (15 / v0)  # * 100
         return self.temp_modifier
 
     def get_velocity_for_temp(self, current_temp: Union[float, Temperature]) -> Velocity:
